@@ -335,6 +335,9 @@ func (p *program) compileAll() {
 	}
 }
 
+// memStress makes the ETX action use large memory windows (C15 runs only).
+var memStress bool
+
 // kindOf interprets the action-kind index.  The first action of every contract but the last is a call or a
 // creation three times out of four, so that call trees get some depth.
 func (p *program) kindOf(i, ai int, o tapeOp) string {
@@ -469,8 +472,12 @@ func (p *program) compile(i int, asInit bool, rt int) []byte {
 			a.pushU(canary)
 			a.pushU(uint64(len(aclBlobs[bi])))
 			a.pushU(0x200)
-			a.pushU(uint64(o.D % 2 * 4)) // inSize
-			a.pushU(0)                   // inOffset
+			inSize := uint64(o.D % 2 * 4)
+			if memStress && o.E%3 == 0 {
+				inSize = []uint64{1 << 14, 1 << 17, 1 << 19}[o.B%3] // C15: a large data window, i.e. a large memory expansion
+			}
+			a.pushU(inSize) // inSize
+			a.pushU(0)      // inOffset
 			a.push(feeCap)
 			a.push(tip)
 			a.push(gl)
